@@ -834,3 +834,41 @@ def tuple_param_stream(ck, iexe, n, n_samples, tag):
     srcs = [gen_tuple_param_source(rng.fork(i)) for i in range(n)]
     res = run_impl(iexe, [{"src": s, "n": n_samples, "state": True, "typecheck": True} for s in srcs])
     return list(zip(srcs, res))
+
+
+# ---------------------------------------------------------------------------------------------------------------------
+# "side" programs: small families around defects that a seeding sub-agent met in passing and that no generator of ours produced
+# (repaired as J1..J4; see KNOWN_FINDINGS.txt).  Every program is accepted, must not crash, and VM and WASM must agree.
+def gen_side_source(rng):
+    r = rng
+    k = r.below(5)
+    if k == 0:          # J1: a match on numbers whose scrutinee is -inf / +inf / NaN / huge / fractional on some samples
+        lits = sorted(set(r.range(-3, 6) for _ in range(r.range(1, 4))))
+        special = r.choice(["0.0 - 1.0/z", "1.0/z", "z/z", "1.0e300", "0.0 - 1.0e300", "0.5", "9.3e18", "0.0 - 9.3e18"])
+        arms = ", ".join("%d => %d.0" % (l, 10 * (i + 1)) for i, l in enumerate(lits))
+        wild = ", _ => %d.0" % r.range(90, 99)
+        return ("fn dsp(){\n  let z = 0.0\n  let x = if (now %% 3.0 < 1.0) { %s } else { now - %d.0 }\n  match x { %s%s }\n}\n"
+                % (special, r.range(0, 3), arms, wild))
+    if k == 1:          # J2: array literals around the half-float boundary of the element index
+        n = r.choice([2047, 2048, 2049, 2050, 2051, 3000, 4100])
+        return ("fn dsp(){\n  let a = [" + ", ".join("%d.0" % ((i * 7) % 10) for i in range(n)) +
+                "]\n  a[%d.0] * 10.0 + a[now] + a[%d.0]\n}\n" % (n - 1, r.below(n)))
+    if k == 2:          # J3: binders of match patterns named like outer variables that are used after the match
+        h = r.choice(["h", "v", "acc"])
+        if r.chance(1, 2):
+            return ("type O%d = Some%d(float) | None%d\nfn dsp(){\n  let o = if (now > 1.0) { Some%d(4.0 + now) } else { None%d }\n  let %s = (10.0, 20.0)\n"
+                    "  let r = match o { Some%d(%s) => %s, None%d => 0.0 }\n  r + %s.1\n}\n" % ((k,) * 5 + (h, k, h, h, k, h)))
+        return ("type O%d = Some%d(float) | None%d\nfn dsp(){\n  let %s = 100.0\n  let r = match (Some%d(now), 1.0) { (Some%d(%s), 1) => %s, _ => 0.0 }\n  r * 1000.0 + %s\n}\n"
+                % (k, k, k, h, k, k, h, h, h))
+    if k == 3:          # J4: a record with MORE fields assigned to a variable / field of a narrower record type
+        where = r.choice(["global", "local", "field", "annot"])
+        if where == "global":
+            return "let r = {a = 1.0}\nlet z = 5.0\nfn dsp(){\n  r = {a = 2.0 + now, b = 3.0}\n  r.a * 10.0 + z\n}\n"
+        if where == "local":
+            return "fn dsp(){\n  let r = {a = 1.0, c = 9.0}\n  let z = 5.0\n  r = {a = 2.0, b = 3.0, c = 4.0 + now}\n  r.a * 100.0 + r.c * 10.0 + z\n}\n"
+        if where == "field":
+            return "fn dsp(){\n  let r = {a = {x = 1.0}, k = 7.0}\n  let z = 5.0\n  r.a = {x = 2.0, y = 3.0}\n  r.a.x * 100.0 + r.k * 10.0 + z + now\n}\n"
+        return "fn dsp(){\n  let r:{b:float} = {a = 2.0, b = 3.0 + now}\n  let z = 7.0\n  r.b * 10.0 + z\n}\n"
+    # a dsp with inputs is covered by C01's scheduler stream; here: tuples with many elements (neighbour of J2)
+    n = r.choice([17, 64, 300])
+    return ("fn dsp(){\n  let t = (" + ", ".join("%d.0" % (i % 9) for i in range(n)) + ")\n  t.%d + t.0 * 10.0 + now\n}\n" % (n - 1))
